@@ -266,7 +266,7 @@ def run(res, tier, seed, shard, nshards):
             res.violation("validator-mismatch", f"validate_utf8(<{len(data)} bytes ending in {data[-4:].hex()}, {tag}>) = {got!r}, reference says {exp}",
                           {"gen": "very-long", "len": len(data), "tag": tag}, expected=exp, input_class=tag)
     # 4. receive path -----------------------------------------------------------
-    with H.ambient((shard, "C06"), res, dims=("multithread", "tls", "dispatcher", "high_fd")):
+    with H.ambient((shard, "C06"), res, dims=("multithread", "tls", "dispatcher", "high_fd", "warn_error", "thread_hop", "truthy")):
         recv_path(res, W, tier, rng, shard, nshards)
     if shard == 1 % nshards:
         H.in_sim(lambda: redirect_option_cases(res, W, rng), watchdog=120)
